@@ -259,6 +259,11 @@ def _run(ctx, replay=None):
     ov = ctx.overlay({PKG: FILES})
     if replay:
         rp = json.load(open(replay))
+        if rp.get("family") == "contactpending":
+            import contactpending
+            contactpending.run_part(ctx)
+            return ctx.finish(level="model_checking", rule="replay: pending outgoing request, announced key vs authenticated key", exhaustive=False,
+                              technique="replay")
         if "contact_script" in rp:
             handshake_contact.phase(ctx, replay_script=rp["contact_script"])
             return ctx.finish(level="model_checking", rule="replay of one recorded run through handleIncomingRequest", exhaustive=False,
@@ -386,6 +391,10 @@ def _run(ctx, replay=None):
     # second driver: the same intruder against handleIncomingRequest of a real service (root package)
     if not replay and (ctx.tier != "quick" or os.environ.get("VERIF_C06_CONTACT") == "1"):
         handshake_contact.phase(ctx)
+    if not replay:
+        # every tier: a node with a pending outgoing request; the peer authenticates as E and announces another key
+        import contactpending
+        contactpending.run_part(ctx)
     for s in scripts:
         if s.get("attack") and len(ctx.samples) < 2:
             bid = [b for b, _ in blocks if resets[b]["sid"] == s["id"]][0]
